@@ -157,6 +157,10 @@ def tlc(ctx, family, module, cfg, workers="auto", extra=(), env=None, timeout=18
     m = RE_STATES.findall(out)
     if m:
         res["generated"], res["distinct"] = int(m[-1][0]), int(m[-1][1])
+    if not m:
+        ms = re.findall(r"The number of states generated: (\d+)", out)   # simulation mode
+        if ms:
+            res["generated"] = int(ms[-1])
     m = RE_DEPTH.findall(out)
     if m:
         res["depth"] = int(m[-1])
